@@ -171,3 +171,65 @@ Theorem reset_keeps_index_cells_refuted :
               cspec toy_ranges 1 h = [[(10, 100); (20, 200)]; [(5, 50); (10, 100); (20, 200)]].
 Proof. exact C13_EdgeQuery.reset_keeps_index_cells_refuted. Qed.
 Print Assumptions reset_keeps_index_cells_refuted.
+
+(** ** H_ORIGIN_REV for the real predicates (unit points, Go ==, RobustSign; crossing predicate =
+    the exact EdgeOrVertexCrossing [u_eov_spec], whose symmetry in the tested edge is closed).
+    Reversing pre ++ [a;o;b] flips the originInside that initOriginAndBound computes, GIVEN
+      - the computable guards: a, o, b pairwise different and referenceDir(o) <> o, and
+      - [vertex_consistent]: the original loop contains its last-but-one vertex o according to
+        o's own wedge.
+    Everything else is discharged from C03 (wedge-split law, guarded) and C04 (invert_complement,
+    origin_inside_vertex1).  For TRIANGLES o is vertex 1 and [vertex_consistent] is
+    origin_inside_vertex1: no hypothesis is left.  For longer vertex lists [vertex_consistent] is
+    the missing step: it is the statement that the crossing parity from OriginPoint agrees at
+    vertex n-2 with the choice made at vertex 1, i.e. C04's Jordan-type hypothesis H-JORDAN for a
+    VALID loop; it is false of self-crossing vertex lists (figure eight: the two lobes have
+    opposite orientation), so the orientation laws alone cannot give it.  [invert_matches_fresh]
+    above keeps H_ORIGIN_REV as its premise for that reason; the two theorems below replace it. *)
+From Geo Require Import Model.Crosser Model.Contain Proofs.Link_C02_C03 Proofs.Link_C02_C04 Proofs.C13_OriginRev.
+
+Theorem origin_rev_real : forall (refdir : upoint -> upoint) south origin zeroPt pre a o b,
+  u_peq (refdir o) o = false -> u_peq a o = false -> u_peq b o = false -> u_peq a b = false ->
+  vertex_consistent refdir (u_eov_spec refdir) south origin zeroPt pre a o b ->
+  init_origin_inside upoint u_peq (u_eov_spec refdir) (angle_contains_vertex upoint u_sign refdir) south origin zeroPt
+    (rev (pre ++ [a; o; b]))
+  = negb (init_origin_inside upoint u_peq (u_eov_spec refdir) (angle_contains_vertex upoint u_sign refdir) south origin zeroPt
+            (pre ++ [a; o; b])).
+Proof.
+  intros refdir south origin zeroPt.
+  exact (C13_OriginRev.origin_rev_real refdir (u_eov_spec refdir) south origin zeroPt zeroPt zeroPt (u_eov_spec_sym_cd refdir)).
+Qed.
+Print Assumptions origin_rev_real.
+
+(** triangles: invert_matches_fresh with NO hypothesis, only the computable guards *)
+Theorem invert_matches_fresh_triangle_real : forall (refdir : upoint -> upoint) south origin zeroPt emptyPt fullPt a o b (h : list lop),
+  u_peq (refdir o) o = false -> u_peq a o = false -> u_peq b o = false -> u_peq a b = false ->
+  let oi := init_origin_inside upoint u_peq (u_eov_spec refdir) (angle_contains_vertex upoint u_sign refdir) south origin zeroPt in
+  let lr := lrun emptyPt fullPt oi (fun (_ : list upoint) (_ : bool) => tt) tt (fun _ : unit => true) in
+  let vs := [a; o; b] in
+  let vs' := fst (iter_invert emptyPt fullPt (count_inverts h) vs (oi vs)) in
+  exists l1 l2 o1 o2,
+    lr vs (h ++ [LQuery]) = Ok (l1, o1) /\ lr vs' [LQuery] = Ok (l2, o2) /\
+    last o1 (vs, oi vs, []) = last o2 (vs, oi vs, []).
+Proof.
+  intros refdir south origin zeroPt emptyPt fullPt.
+  exact (C13_OriginRev.invert_matches_fresh_triangle_real refdir (u_eov_spec refdir) south origin zeroPt emptyPt fullPt (u_eov_spec_sym_cd refdir)).
+Qed.
+Print Assumptions invert_matches_fresh_triangle_real.
+
+(** any length >= 3: the hypothesis H_ORIGIN_REV reduced to [vertex_consistent] of the one loop *)
+Theorem invert_matches_fresh_real : forall (refdir : upoint -> upoint) south origin zeroPt emptyPt fullPt pre a o b (h : list lop),
+  u_peq (refdir o) o = false -> u_peq a o = false -> u_peq b o = false -> u_peq a b = false ->
+  vertex_consistent refdir (u_eov_spec refdir) south origin zeroPt pre a o b ->
+  let oi := init_origin_inside upoint u_peq (u_eov_spec refdir) (angle_contains_vertex upoint u_sign refdir) south origin zeroPt in
+  let lr := lrun emptyPt fullPt oi (fun (_ : list upoint) (_ : bool) => tt) tt (fun _ : unit => true) in
+  let vs := pre ++ [a; o; b] in
+  let vs' := fst (iter_invert emptyPt fullPt (count_inverts h) vs (oi vs)) in
+  exists l1 l2 o1 o2,
+    lr vs (h ++ [LQuery]) = Ok (l1, o1) /\ lr vs' [LQuery] = Ok (l2, o2) /\
+    last o1 (vs, oi vs, []) = last o2 (vs, oi vs, []).
+Proof.
+  intros refdir south origin zeroPt emptyPt fullPt.
+  exact (C13_OriginRev.invert_matches_fresh_real refdir (u_eov_spec refdir) south origin zeroPt emptyPt fullPt (u_eov_spec_sym_cd refdir)).
+Qed.
+Print Assumptions invert_matches_fresh_real.
